@@ -120,6 +120,7 @@ def main(argv=None):
     findings = load_findings()
     rep = Reporter(a.prop, a.tier, a.seed)
     crash = False
+    deferred = []
     # ------------------------------------------------------------------ deductive part
     budget = 20000 if a.tier == 'quick' else 60000
     targets = [] if a.no_deductive else list(getattr(prop, 'TARGETS', []))
@@ -198,10 +199,12 @@ def main(argv=None):
                     row['known_finding'] = f['match']
                     known_refuted.append(ob['name'])
                 else:
-                    rep.violation({'function': fr['function'], 'obligation': ob['name'], 'verdict': 'refuted',
-                                   'solver_model': ob.get('model'), 'info': ob['info'], 'line': ob['line'],
-                                   'what': f"obligation {ob['name']} refuted by {row['backend']}: {ob['info']}",
-                                   'replay': None}, no_input=True)
+                    # no concrete input from the function's own witness search: wait for the bounded stand-in, whose
+                    # failing inputs (if any) are attached as the replay of this obligation
+                    deferred.append({'function': fr['function'], 'obligation': ob['name'], 'verdict': 'refuted',
+                                     'solver_model': ob.get('model'), 'info': ob['info'], 'line': ob['line'],
+                                     'what': f"obligation {ob['name']} refuted by {row['backend']}: {ob['info']}",
+                                     'replay': None})
             else:
                 f = match_finding(findings, a.prop, 'obligation', ob['name'])
                 if f:
@@ -235,9 +238,20 @@ def main(argv=None):
                 rep.violation({'standin': st['name'], 'input': w.get('input'), 'what': w.get('what'),
                                'class': w.get('class'), 'replay': w.get('replay'),
                                'same_class_failures': sum(1 for x in unknown if x.get('class') == w.get('class'))})
+            if unknown and deferred:
+                w = unknown[0]
+                for dv in deferred:
+                    dv = dict(dv)
+                    dv.update({'input': w.get('input'), 'replay': w.get('replay'), 'class': w.get('class'),
+                               'witness_from': f"bounded stand-in {st['name']}",
+                               'what': dv['what'] + ' | failing input from the bounded stand-in: ' + str(w.get('what'))[:300]})
+                    rep.violation(dv)
+                deferred = []
             st['failures_unlisted'] = len(unknown)
             st['failures_known'] = len(st.get('failures', [])) - len(unknown)
             st['failures'] = st.get('failures', [])[:5]
+    for dv in deferred:
+        rep.violation(dv, no_input=True)
     rep.flush_known()
     wall = time.time() - t0
     # ------------------------------------------------------------------ evidence
